@@ -38,9 +38,14 @@ def rebound_parameter(fn):
     raise Untranslatable("no re-bound parameter in " + fn.name)
 
 
+def sig(fn):
+    """the function's own parameter names (without self)"""
+    return [a.arg for a in fn.args.args if a.arg != "self"]
+
+
 def ignore_list(fn):
     s = rebound_parameter(fn)
-    t = TFn(hints={s.targets[0].id: "List String"}, elem="String")
+    t = TFn(hints={s.targets[0].id: "List String"}, elem="String", first=sig(fn))
     body, ty = t.expr(s.value, {})
     if ty != "List String":
         raise Untranslatable(f"the ignore list has type {ty}")
@@ -85,7 +90,7 @@ def extract(repo, o):
                 and all(isinstance(x, ast.Name) for x in inner.target.elts)):
             raise Untranslatable("loop target of by_gene: " + ast.unparse(inner.target))
         g, idx = (x.id for x in inner.target.elts)
-        t = TFn(hints={g: "String", idx: "List Nat"}, num="Nat", elem="Nat")
+        t = TFn(hints={g: "String", idx: "List Nat"}, num="Nat", elem="Nat", first=sig(fn) + [g, idx])
         body = t.step(list(inner.body), {}, [], [state[0][0]])
         return t, YIELD + " × Nat", body
     emit_typed(o, "src_by_gene_step", step,
@@ -94,7 +99,7 @@ def extract(repo, o):
 
     def tail():
         _inner, state, after = by_gene_parts(fn)
-        t = TFn(hints={state[0][0]: "Nat"}, num="Nat", elem="Nat")
+        t = TFn(hints={state[0][0]: "Nat"}, num="Nat", elem="Nat", first=sig(fn))
         return t, YIELD, t.step(list(after), {}, [], [])
     emit_typed(o, "src_by_gene_tail", tail, "cnary.by_gene: after the loop (the telomere)")
 
